@@ -206,14 +206,26 @@ def run_merge_observed(out: Path, inputs: list[Path], merge_kwargs: dict, fault_
     return outcome, err
 
 
-def make_inputs(d: Path, ins, assoc, tag=''):
+LIST_NAMES = ['w', 'e', 'n', 'a']   # given order is deliberately not the alphabetical order of the file names
+
+
+def input_name(form, k, tag=''):
+    """File name of the k-th input (1-based).  Explicit lists use names whose
+    alphabetical order differs from the order given; numbered patterns use an
+    unpadded index starting at 9, so that 9, 10, 11 do not sort as given."""
+    if form == 'list':
+        return f'in{tag}_{LIST_NAMES[k - 1]}.nc'
+    return f'in{tag}_{8 + k}.nc'
+
+
+def make_inputs(d: Path, ins, assoc, tag='', form='list'):
     TS = _aeic()[0]
     paths, apaths = [], []
     for k, shape in enumerate(ins, start=1):
-        p = d / f'in{tag}_{k:03d}.nc'
+        p = d / input_name(form, k, tag)
         kw = {}
         if assoc:
-            ap = d / f'as{tag}_{k:03d}.nc'
+            ap = d / ('as' + input_name(form, k, tag)[2:])
             kw['associated_files'] = [(ap, ['vf_assoc'])]
             apaths.append(ap)
         with TS.create(base_file=p, **kw) as ts:
@@ -303,7 +315,7 @@ def check_merged(out: Path, case, assoc_out=None):
 def merge_kwargs(form, paths, d: Path, tag=''):
     if form == 'list':
         return {'input_stores': list(paths)}
-    return {'input_stores_pattern': d / ('in' + tag + '_{index:03d}.nc'), 'input_stores_index_range': (1, len(paths))}
+    return {'input_stores_pattern': d / ('in' + tag + '_{index}.nc'), 'input_stores_index_range': (9, 8 + len(paths))}
 
 
 def run_case(case):
@@ -313,7 +325,7 @@ def run_case(case):
     devs = []
     try:
         ins = case['ins']
-        paths, apaths = make_inputs(d, ins, case['assoc'])
+        paths, apaths = make_inputs(d, ins, case['assoc'], form=case['form'])
         out = d / 'merged.aeic-store'
         obs = FsObserver(out, paths)
         trace = [{'op': 'begin', 'ins': ins}]
@@ -348,7 +360,7 @@ def run_case(case):
                     q = p if p.exists() else out / p.name
                     if q.exists():
                         q.unlink()
-                paths2, _ = make_inputs(d, fixed, False)
+                paths2, _ = make_inputs(d, fixed, False, form=case['form'])
                 obs2 = FsObserver(out, paths2)
                 obs2.state = obs.state  # continue from what the refused merge left behind
                 oc2, exc2 = run_merge_observed(out, paths2, merge_kwargs(case['form'], paths2, d), 0, obs2)
